@@ -429,6 +429,7 @@ func str2numFunc(scope *scope, args []value) (value, error) {
 	if err != nil {
 		msg := fmt.Sprintf("str2num: cannot parse %q", s.V)
 		setGlobalErr(scope, msg)
+		n = 0 // ParseFloat returns ±Inf for out of range input
 	}
 	return &numVal{V: n}, nil
 }
@@ -442,8 +443,13 @@ var str2boolDecl = &parser.FuncDefStmt{
 func str2boolFunc(scope *scope, args []value) (value, error) {
 	resetGlobalErr(scope)
 	s := args[0].(*stringVal)
-	b, err := strconv.ParseBool(s.V)
-	if err != nil {
+	var b bool
+	switch s.V { // the documented spellings; strconv.ParseBool also takes "t", "T", "f", "F"
+	case "true", "True", "TRUE", "1":
+		b = true
+	case "false", "False", "FALSE", "0":
+		b = false
+	default:
 		msg := fmt.Sprintf("str2bool: cannot parse %q", s.V)
 		setGlobalErr(scope, msg)
 	}
